@@ -4,11 +4,11 @@
 
    Code: update_defined_name (model.rs:3666) re-parses every stored formula, runs
    rename_defined_name_in_node over the tree and stores to_rc_format of it; the name table
-   parsed_defined_names is rebuilt with the new key.  rename_sheet_by_index (new_empty.rs:505)
-   re-parses every defined-name formula with the ACTIVE A1 parser and stores to_localized_string.
-   Findings: F67 (C10: both re-parses use the active locale / language), the capture of a free
-   identifier by the new name (C32_rename_capture), and the rewrite of name formulas by sheet
-   renames in a non-English language (C32_other_sheets_refuted). *)
+   parsed_defined_names is rebuilt with the new key.  rename_sheet_by_index (new_empty.rs)
+   re-parses every defined-name formula and stores it back — in English since commit 9f60d5e.
+   Findings: F67 remains for the rename loop of update_defined_name, which still parses with the
+   active locale / language (C32_rename_in_formulas_refuted); the capture of a free identifier by
+   the new name (C32_rename_capture); F70 / F71 (harness). *)
 From IronCalc Require Import Base.Prelude Codec.RefA1 Syntax.Token Syntax.Ast Syntax.Printer Syntax.Parser Syntax.Shape
   Syntax.Localize Syntax.LocalizeProofs Syntax.RenameName Syntax.RenameNameProofs Syntax.RenameNameExamples.
 From IronCalc Require Sheet.Persist Sheet.PersistProofs.
@@ -68,35 +68,43 @@ Qed.
 Print Assumptions C32_language.
 
 (* ---- renaming a sheet the name does not mention --------------------------------------------------
-   rename_sheet_by_index parses the stored (English) formula with the ACTIVE parser and stores the
-   ACTIVE display print.  The stored text survives PROVIDED the active configuration spells the
-   tree as English does — [lang_neutral], decidable: no function or boolean whose name differs, no
-   separator that differs. *)
+   rename_sheet_by_index parses the stored formula of every name and prints it back, both in
+   ENGLISH since commit 9f60d5e ([m], [nm]: that one configuration).  The stored text of a name that
+   does not mention the renamed sheet survives, whatever the user's language and locale. *)
 Theorem C32_other_sheets :
-  forall m_en m nm_en nm env (rename_sheet : ast -> ast) e,
-  lang_neutral m_en m nm_en nm e = true ->
+  forall m nm env (rename_sheet : ast -> ast) e,
   image m nm env e = true -> no_bad (pm_xlsx m) e = true -> lower_stable nm e = true ->
   rename_sheet e = e ->
-  name_formula_after_rename m nm env rename_sheet (print m_en nm_en e) = print m_en nm_en e.
+  name_formula_after_rename m nm env rename_sheet (print m nm e) = print m nm e.
 Proof. exact other_sheet_rename_keeps_formula. Qed.
 Print Assumptions C32_other_sheets.
 
-(* which stored texts violate the proviso, by computation over the generated tables: a LAMBDA name
-   with a built-in function under a non-English language is REWRITTEN (=LAMBDA(x,SUM(x,1.5)) becomes
-   =LAMBDA(x,sum(x,1.5)) in German); under a comma-decimal locale the active parser rejects the
-   English separators and the text is copied (the DESIGN probe "happened to survive") *)
-Theorem C32_other_sheets_refuted :
-  image en11 (names_of 0) env1 lam_sum = true /\
-  lang_neutral en11 en11 (names_of 0) (names_of 1) lam_sum = false /\
-  name_formula_after_rename en11 (names_of 1) env1 (fun e => e) (print en11 (names_of 0) lam_sum) <> print en11 (names_of 0) lam_sum.
-Proof. exact other_sheet_refuted_language. Qed.
-Print Assumptions C32_other_sheets_refuted.
+(* ---- renaming a name updates every formula that uses it -------------------------------------------
+   update_defined_name re-reads every stored formula, runs the pass and prints the stored form.  In
+   the English / decimal-point configuration the new stored text is the print of the renamed tree
+   (with C32_rename_name: exactly the uses of the name are rewritten). *)
+Theorem C32_rename_in_formulas_partial :
+  forall nm env (lower : text -> text) name scope new_name e,
+  image (m_rc_of true) nm env e = true -> no_bad false e = true -> lower_stable nm e = true ->
+  formula_after_name_rename true nm nm env lower name scope new_name (print (m_rc_of true) nm e)
+  = print (m_rc_of true) nm (rename lower name scope new_name e).
+Proof. exact name_rename_in_formula. Qed.
+Print Assumptions C32_rename_in_formulas_partial.
 
-Theorem C32_other_sheets_comma_locale :
-  lang_neutral en11 (m_display false 1 1) (names_of 0) (names_of 0) lam_sum = false /\
-  name_formula_after_rename (m_display false 1 1) (names_of 0) env1 (fun e => e) (print en11 (names_of 0) lam_sum) = print en11 (names_of 0) lam_sum.
-Proof. exact other_sheet_comma_locale_copies. Qed.
-Print Assumptions C32_other_sheets_comma_locale.
+(* ... but that loop still parses with the ACTIVE language and locale (finding F67, the half that
+   commit 9f60d5e did not touch).  French: TRIM(G) becomes MIRR(H) when G is renamed to H; a
+   comma-decimal locale: SUM(G,2) does not parse, is copied, and still names G *)
+Theorem C32_rename_in_formulas_refuted :
+  (image (m_rc_of true) (names_of 0) env_g trim_g = true /\
+   formula_after_name_rename true (names_of 3) (names_of 0) env_g lower t_g None t_h (print (m_rc_of true) (names_of 0) trim_g)
+     = print (m_rc_of true) (names_of 0) (EFun 222 [EDefName t_h None f_g]) /\
+   print (m_rc_of true) (names_of 0) (EFun 222 [EDefName t_h None f_g]) <> print (m_rc_of true) (names_of 0) (rename lower t_g None t_h trim_g)) /\
+  (image (m_rc_of true) (names_of 0) env_g sum_g2 = true /\
+   formula_after_name_rename false (names_of 0) (names_of 0) env_g lower t_g None t_h (print (m_rc_of true) (names_of 0) sum_g2)
+     = print (m_rc_of true) (names_of 0) sum_g2 /\
+   print (m_rc_of true) (names_of 0) sum_g2 <> print (m_rc_of true) (names_of 0) (rename lower t_g None t_h sum_g2)).
+Proof. exact (conj name_rename_refuted_language name_rename_refuted_locale). Qed.
+Print Assumptions C32_rename_in_formulas_refuted.
 
 (* ---- both file round trips: the binary format keeps workbook.defined_names (C26) ---------------- *)
 Theorem C32_roundtrip_binary :
@@ -117,7 +125,7 @@ Print Assumptions C32_roundtrip_binary.
 
 (* non-vacuity *)
 Example C32_nonvacuous :
-  (lang_neutral en11 (m_display false 1 1) (names_of 0) (names_of 1) ref_a1 = true /\
-   image (m_display false 1 1) (names_of 1) env1 ref_a1 = true /\ no_bad false ref_a1 = true /\ lower_stable (names_of 1) ref_a1 = true) /\
+  (image en11 (names_of 0) env1 lam_sum = true /\ no_bad false lam_sum = true /\ lower_stable (names_of 0) lam_sum = true /\
+   image en11 (names_of 0) env1 ref_a1 = true) /\
   rename lower t_name1 None t_renamed uses = ESum SAdd (dn t_renamed) (EFun 80 [dn t_renamed; dn t_other]).
 Proof. exact (conj other_sheet_premises rename_example). Qed.
